@@ -18,7 +18,11 @@
 //                                        [safetymax=<hex> level=<l>] mindist=<hex> dir=<hex hex hex>`
 //   gnear x y z u v w eps n seed max     same at the point `eps` before the next boundary of the
 //                                        ray (x y z; u v w): near a wall known to some level
-//   gfind x y z / <level> / … | n seed [max]   same scan on the synthetic geometry of `find`
+//   gseq x y z n seed max [u v w frac]+  init → [set_dir(u v w) → find_next_step →
+//                                        move_internal(frac·min(step,10))]… → find_safety() and
+//                                        find_safety(max) on that state (`seqsafety= seqsafetymax=`),
+//                                        then the scan from a FRESH state at the reached global point
+//   gfind x y z / <level> / … | n seed [max [u v w frac]*]   same scans on the synthetic geometry of `find`
 #include <cmath>
 #include <cstdlib>
 #include <map>
@@ -399,6 +403,41 @@ bool near_wall(Geo& g, Real3 const& pos, Real3 const& dir, double eps, Real3* ou
     return true;
 }
 
+// init → [set_dir → find_next_step → move_internal(frac · step)]× → find_safety / find_safety(max)
+// on the SAME state, then the usual scan from a FRESH state at the same global point.
+// steps = (u v w frac)*
+string seq_scan(Geo& g, Real3 const& pos, vecd const& steps, std::size_t n, std::uint64_t seed,
+                double max_step)
+{
+    auto geo = g.view();
+    geo = GeoTrackInitializer{pos, Real3{1, 0, 0}};
+    if (geo.failed())
+        return "init-failed";
+    if (geo.is_outside())
+        return "outside";
+    std::size_t moves = 0;
+    for (std::size_t k = 0; k + 3 < steps.size(); k += 4)
+    {
+        Real3 d{steps[k], steps[k + 1], steps[k + 2]};
+        geo.set_dir(d);
+        auto p = geo.find_next_step();
+        double len = p.distance < 10.0 ? p.distance : 10.0;
+        double dist = steps[k + 3] * len;
+        if (!(dist > 1e-9) || !(dist < p.distance))
+            continue;
+        geo.move_internal(dist);
+        ++moves;
+    }
+    double s_seq = geo.find_safety();
+    double sm_seq = geo.find_safety(max_step);
+    Real3 gp = geo.pos();
+    auto lev = geo.level().unchecked_get();
+    return "seqsafety=" + vh::hexd(s_seq) + " seqsafetymax=" + vh::hexd(sm_seq)
+           + " moves=" + std::to_string(moves) + " seqlevel=" + std::to_string(lev) + " pos="
+           + vh::hexd(gp[0]) + "," + vh::hexd(gp[1]) + "," + vh::hexd(gp[2]) + " fresh: "
+           + scan(g, gp, n, seed, &max_step);
+}
+
 //---------------------------------------------------------------------------//
 string op_find(vecs const& w, bool do_scan, bool with_max)
 {
@@ -408,6 +447,7 @@ string op_find(vecs const& w, bool do_scan, bool with_max)
     std::size_t nscan = 0, seed = 0;
     double scan_max = 0;
     bool have_scan_max = false;
+    vecd seq_steps;
     if (do_scan)
     {
         std::size_t bar = w.size();
@@ -415,13 +455,14 @@ string op_find(vecs const& w, bool do_scan, bool with_max)
             --bar;
         // w[bar-1] == "|", then n seed [max]
         std::size_t nt = w.size() - bar;
-        if (bar < 6 || (nt != 2 && nt != 3) || !parse_nat(w[bar], &nscan)
+        if (bar < 6 || (nt != 2 && (nt < 3 || (nt - 3) % 4 != 0)) || !parse_nat(w[bar], &nscan)
             || !parse_nat(w[bar + 1], &seed))
             return "bad-op";
-        if (nt == 3)
+        if (nt >= 3)
         {
+            // n seed max [u v w frac]*
             vecd m;
-            if (!parse_all(w, bar + 2, bar + 3, &m))
+            if (!parse_all(w, bar + 2, bar + 3, &m) || !parse_all(w, bar + 3, w.size(), &seq_steps))
                 return "bad-op";
             scan_max = m[0];
             have_scan_max = true;
@@ -447,6 +488,8 @@ string op_find(vecs const& w, bool do_scan, bool with_max)
         return string("build-error");
     }
     Real3 pos{p[0], p[1], p[2]};
+    if (do_scan && !seq_steps.empty())
+        return seq_scan(g, pos, seq_steps, nscan, seed, scan_max);
     if (do_scan)
         return scan(g, pos, nscan, seed, have_scan_max ? &scan_max : nullptr);
 
@@ -586,6 +629,20 @@ int main()
             }
             std::cout << scan(loaded, Real3{p[0], p[1], p[2]}, n, seed, m.empty() ? nullptr : &m[0])
                       << "\n";
+        }
+        else if (op == "gseq" && w.size() >= 11 && (w.size() - 7) % 4 == 0)
+        {
+            // gseq x y z n seed max [u v w frac]+
+            vecd p, m, st;
+            std::size_t n, seed;
+            if (!loaded.params || !parse_all(w, 1, 4, &p) || !parse_nat(w[4], &n)
+                || !parse_nat(w[5], &seed) || !parse_all(w, 6, 7, &m)
+                || !parse_all(w, 7, w.size(), &st))
+            {
+                std::cout << "bad-op\n";
+                continue;
+            }
+            std::cout << seq_scan(loaded, Real3{p[0], p[1], p[2]}, st, n, seed, m[0]) << "\n";
         }
         else if (op == "gnear" && w.size() == 11)
         {
